@@ -4,7 +4,7 @@ import Compass.Model.Cost
 /-!
 C07 driver.  Two kinds of case line:
 
-  `api <agg> <features> <prev> <next> <edge> <prevEdge> <nextEdge>`   (through `CostModel::new`)
+  `api <agg> <features> <prev> <next> <mid> <edge> <prevEdge> <nextEdge>`   (through `CostModel::new`)
   `ops <agg> <indices> <weights> <vehicle rates> <network rates> <prev> <next> <edge> <prevEdge> <nextEdge>`
       (the three `cost_ops::calculate_*` functions on arbitrary index lists and vector lengths;
        output `ops <vehicle> <network traversal> <network access>`, each a bit pattern or `err`)
@@ -17,10 +17,11 @@ C07 driver.  Two kinds of case line:
 * `prev`, `next`  lists of doubles (bit patterns)
 
 Output: `new-err` when `CostModel::new` rejects the configuration, otherwise
-`ok <traversal_cost> <access_cost> <cost_estimate> <share> <total> <share0> <total0>` where each of the
-first three is a bit pattern or `err`; `share`/`total` are the `traversal_cost` field and
-`total_cost()` of the `EdgeTraversal` record built as in `forward_traversal` with a previous edge,
-`share0`/`total0` the same without previous edge (`err` when a needed cost is `err`).
+`ok <traversal_cost> <access_cost> <cost_estimate> <fwd> <fwd0> <rev> <rev0>`: the three API results on
+`(prev, next)` (bit pattern or `err`), then four records `<access_cost> <traversal_cost> <total_cost()>`
+(or `err err err`) of `EdgeTraversal::forward_traversal` with / without previous edge and
+`reverse_traversal` with / without next edge, where the access model leaves the state `mid` and the
+traversal model the state `next`.
 -/
 
 namespace Compass.Drv.C07
@@ -82,6 +83,10 @@ def opsCase : P String := do
   pure (joinSp ["ops", fopt (m.vehicleCosts prev nxt), fopt (m.networkTraversalCosts prev nxt e),
     fopt (m.networkAccessCosts prev nxt pe ne)])
 
+def recOut : Option (Float × Float) → String
+  | some r => joinSp [floatOut r.1, floatOut r.2, floatOut (edgeRecordTotal r)]
+  | none => "err err err"
+
 def apiCase : P String := do
   let fuel := (← get).length + 1
   let agg ← aggP
@@ -92,6 +97,7 @@ def apiCase : P String := do
     pure (w, v, n))
   let prev ← listOf float
   let nxt ← listOf float
+  let mid ← listOf float
   let e ← nat
   let pe ← nat
   let ne ← nat
@@ -102,23 +108,11 @@ def apiCase : P String := do
     let t := m.traversalCost e prev nxt
     let a := m.accessCost pe ne prev nxt
     let est := m.costEstimate prev nxt
-    -- with a previous edge: access share = ZERO + access cost
-    let withPrev : Option (Float × Float) :=
-      match a, t with
-      | some a, some t =>
-        let acc := edgeAccessShare (some a)
-        some (t - acc, edgeTotalCost acc t)
-      | _, _ => none
-    -- without previous edge: access share = ZERO
-    let noPrev : Option (Float × Float) :=
-      match t with
-      | some t =>
-        let acc : Float := edgeAccessShare none
-        some (t - acc, edgeTotalCost acc t)
-      | none => none
     pure (joinSp ["ok", fopt t, fopt a, fopt est,
-      fopt (withPrev.map (·.1)), fopt (withPrev.map (·.2)),
-      fopt (noPrev.map (·.1)), fopt (noPrev.map (·.2))])
+      recOut (m.edgeTraversal e (some (pe, e)) prev mid nxt),   -- forward_traversal, previous edge `pe`
+      recOut (m.edgeTraversal e none prev mid nxt),             -- forward_traversal, no previous edge
+      recOut (m.edgeTraversal e (some (e, ne)) prev mid nxt),   -- reverse_traversal, next edge `ne`
+      recOut (m.edgeTraversal e none prev mid nxt)])            -- reverse_traversal, no next edge
 
 def case : P String := do
   let kind ← next
